@@ -119,20 +119,21 @@ impl Prop for C09 {
     const RESETS_PANIC_HOOK: bool = true;
 
     fn lanes(tier: Tier) -> Vec<Lane> {
+        // time caps are safety nets (5-10x the expected duration on an idle 16-core machine)
         vec![
             Lane::new("sched", tier.pick(6_000, 300_000))
-                .cap(tier.pick(60, 900))
+                .cap(tier.pick(150, 1500))
                 .hang(None)
-                .floor(tier.pick(500, 20_000)),
+                .floor(tier.pick(300, 20_000)),
             Lane::new("chaos", tier.pick(640, 20_000))
-                .cap(tier.pick(40, 600))
+                .cap(tier.pick(150, 1200))
                 .hang(None)
-                .floor(tier.pick(100, 3_000)),
+                .floor(tier.pick(50, 3_000)),
             Lane::new("panic", tier.pick(96, 1_500))
-                .cap(tier.pick(40, 300))
+                .cap(tier.pick(60, 300))
                 .hang(None)
                 .shards(8)
-                .floor(tier.pick(20, 300)),
+                .floor(tier.pick(10, 300)),
         ]
     }
 
